@@ -54,6 +54,7 @@ for i, tr, cf, info in out:
 print("monitor failures:", dict(mc))
 for k, v in first.items():
     print("  ", k, v)
+print("create obligations:", sum(v for (ob, c), v in cnt.items() if ob.startswith("create.")), "phase:", sum(v for (ob, c), v in cnt.items() if ob.startswith("phase.")))
 print("late registrations:", sum(1 for i, tr, cf, info in out if tr.get("registrations")), "of", len(out),
       "| reg obligations:", sum(v for (ob, c), v in cnt.items() if ob.startswith("reg.")),
       "| dt>1 off-grid events:", sum(1 for s in scns for e in s["events"] if s["model"]["dt"] > 1 and (e["occ"] % s["model"]["dt"] or e["dur"] % s["model"]["dt"])))
